@@ -390,7 +390,7 @@ Definition serve_path_info (c : config) (rq : request) (pi : text) (fs : fsys) (
 (* the whole request: WSGI server (unquote once) -> router -> view *)
 Definition subpath_key : text := [115; 117; 98; 112; 97; 116; 104]%N.   (* "subpath": request.subpath *)
 
-Definition run_request (c : config) (fs : fsys) (fm : filemap) (rq : request) : M (resp * filemap) :=
+Definition run_request_core (c : config) (fs : fsys) (fm : filemap) (rq : request) : M (resp * filemap) :=
   let pi := unquote (r_raw rq) in
   match c_mount c with
   | 0 | 1 =>
@@ -454,6 +454,56 @@ Definition run_request (c : config) (fs : fsys) (fm : filemap) (rq : request) : 
       end
   | _ => serve c rq pi fs fm (r_subpath rq)
   end.
+
+(* HTTP_X_VHM_ROOT and the mountings that go through a ROUTE (0, 1, 4, 6).  Whether or not the route matched, the
+   traverser decodes the header (a plain UnicodeDecodeError when it cannot) and, the default root having no children, takes
+   the first segment of the virtual root as the VIEW NAME; the route's static view is registered under the empty name, so
+   it is found only when that name is '' (no segment, or '@@' alone).  With no route matched nothing is registered at all:
+   404.  [run_request_core] is the request without the header; the gate is evaluated only when PATH_INFO is decodable
+   (the routes mapper raises URLDecodeError before the traverser runs).  Under a flipped traverser_str_decodes_again the
+   order of the two decoding errors of mountings 4 / 6 is not followed *)
+Definition empty_text (t : text) : bool := match t with [] => true | _ => false end.
+
+(* what the traverser's early return does to a route-mounted view: no virtual-root segment -> nothing; first segment
+   names a view other than '' -> that view does not exist; first segment is the bare selector '@@' (view name '') -> the
+   route's view IS found, but request.subpath is the REST OF THE VIRTUAL ROOT (vpath_tuple[i+1:]), not the route's
+   *subpath / {subpath}: every URL of the route then serves the same thing *)
+Inductive gate := GPass | GNoView | GOverride (tail : list text).
+
+Definition vroot_gate (c : config) : sum resp gate :=
+  match vroot_tuple c with
+  | Datatypes.inl r => Datatypes.inl r
+  | Datatypes.inr [] => Datatypes.inr GPass
+  | Datatypes.inr (seg :: rest) =>
+      Datatypes.inr (if empty_text (traversal_view_name seg) then GOverride rest else GNoView)
+  end.
+
+Definition routed_by_route (m : N) : bool := match m with 0 | 1 | 4 | 6 => true | _ => false end.
+
+Definition is_some {A} (o : option A) : bool := match o with Some _ => true | None => false end.
+
+Definition route_matches (c : config) (p0 : text) : bool :=
+  let p := match p0 with [] => [slash] | _ => p0 end in
+  match c_mount c with
+  | 0 | 1 => is_some (route_match (route_prefix c) p)
+  | 4 => is_some (route_match_ph (route_prefix c) p)
+  | 6 => is_some (route_match_seg (route_prefix c) p)
+  | _ => false
+  end.
+
+Definition run_request (c : config) (fs : fsys) (fm : filemap) (rq : request) : M (resp * filemap) :=
+  if routed_by_route (c_mount c)
+  then match decode (unquote (r_raw rq)) with
+       | None => run_request_core c fs fm rq
+       | Some p0 => match vroot_gate c with
+                    | Datatypes.inl r => ret (r, fm)
+                    | Datatypes.inr GPass => run_request_core c fs fm rq
+                    | Datatypes.inr GNoView => ret (R404 0, fm)
+                    | Datatypes.inr (GOverride t) =>
+                        if route_matches c p0 then serve c rq (unquote (r_raw rq)) fs fm t else ret (R404 0, fm)
+                    end
+       end
+  else run_request_core c fs fm rq.
 
 (* successive requests handled by one view instance (one filemap) *)
 Fixpoint run_requests (c : config) (fs : fsys) (fm : filemap) (rqs : list request) : list (resp * logt) :=
@@ -632,12 +682,45 @@ Definition spec_tail (c : config) (rq : request) (fs : fsys) (decoded : option t
   | _ => spec_serve c rq fs target
   end.
 
-Definition spec_response (c : config) (rq : request) (fs : fsys) : spec_out :=
+Definition spec_response_core (c : config) (rq : request) (fs : fsys) : spec_out :=
   match spec_segments c rq with
   | None => SReject
   | Some None => S404
   | Some (Some segs) => spec_tail c rq fs (decode (unquote (r_raw rq))) segs
   end.
+
+(* a route-mounted static view below a virtual root announced by the proxy: the virtual root's first segment names the
+   view Pyramid looks for, so the route's (unnamed) view answers only when that name is empty; otherwise 404.  An
+   undecodable header is a Unicode decode error *)
+Inductive sgate := SPass | SNoView | SSilent.
+
+Definition spec_gate (c : config) : option sgate :=
+  match c_vroot c with
+  | None => Some SPass
+  | Some v => match decode v with
+              | None => None
+              | Some u => match split_path_info u with
+                          | [] => Some SPass
+                          | seg :: _ => Some (if empty_text (spec_view_name seg) then SSilent else SNoView)
+                          end
+              end
+  end.
+
+(* a virtual root whose first segment is the bare view selector '@@' is not a path prefix of anything: the property is
+   taken to say nothing about which file such a deployment designates (the code serves the rest of the virtual root for
+   every URL of the route -- confined to the root all the same: the containment theorems do not exempt it) *)
+Definition spec_response (c : config) (rq : request) (fs : fsys) : spec_out :=
+  if routed_by_route (c_mount c)
+  then match decode (unquote (r_raw rq)) with
+       | None => spec_response_core c rq fs
+       | Some _ => match spec_gate c with
+                   | None => SReject
+                   | Some SNoView => S404
+                   | Some SSilent => SUnspec
+                   | Some SPass => spec_response_core c rq fs
+                   end
+       end
+  else spec_response_core c rq fs.
 
 Definition opt_text_eqb (a b : option text) : bool :=
   match a, b with
